@@ -7,22 +7,22 @@ from vlib import dtcodec, gen
 
 META = {
     'level_text': 'Theorems for every lawful float carrier, every well-formed datatype tree of any depth, every JSON value / Python '
-                  'value offered and every previous value that is absent or in the value set: accept_sound / validate_sound (an '
-                  'accepted value lies in the declared value set), import_denotes + validate_denotes = accept_denotes (the JSON value '
-                  'stands for a Python value v - no string taken as a number, no fraction truncated, canonical base64, equal lengths - '
-                  'and the accepted value denotes v: numerically equal or clamped from inside the documented tolerance, element-wise, '
-                  'key-wise with previous), accept_total / validate_total / import_total / call_total (only bad-value errors), '
-                  'validate_idem + validate_canon = revalidate_unchanged (a validated value is returned unchanged, without and with '
-                  'itself as previous; hypothesis GridExact: the grid of every scaled type is exactly representable on its range), '
-                  'inSetB_sound / inSetB_complete.  Not proved: call_idem (statement kept; judged by the monitor on every outcome of '
-                  '__call__).  The models are tied to frappy/datatypes.py by a correspondence run on the real classes; the Lean '
-                  'monitors are `decide` of the specification Props themselves.',
-    'level_note': 'Trusted: Lean kernel + axioms propext/Classical.choice/Quot.sound; the 27 laws of LawfulFloatOps for binary64 (all '
-                  'proved for the exact carrier Rat; re-tested on the doubles of every run - a test).  GridExact (hypothesis of '
-                  'idempotence) holds over Rat; for binary64 it can fail where scale is below the float spacing at the limits (grid '
-                  'indices beyond 2^53) - the generator probes that region.  lazy_number_validation stays False.  Lone-surrogate '
-                  'strings and previous values of a wrong kind are judged for totality only.  Previous values are values that '
-                  'validate accepts.',
+                  'value offered and every previous value that is absent or merely has the shape of the type (Shaped: tuples have '
+                  'the arity of the type - true of every value of the value set and of everything __call__ returns; the previous value '
+                  'need NOT lie inside the limits): accept_sound / validate_sound (an accepted value lies in the declared value set), '
+                  'import_denotes + validate_denotes = accept_denotes (the JSON value stands for a Python value v - no string taken as '
+                  'a number, no fraction truncated, canonical base64, equal lengths - and the accepted value denotes v: numerically '
+                  'equal or clamped from inside the documented tolerance, element-wise, key-wise, members not offered taken from '
+                  'previous and validated), accept_total / validate_total / import_total / call_total (only bad-value errors), '
+                  'validate_idem + validate_canon = revalidate_unchanged (hypothesis GridExact), call_idem (hypothesis GridAll), '
+                  'inSetB_sound / inSetB_complete.  The models are tied to frappy/datatypes.py by a correspondence run on the real '
+                  'classes; the Lean monitors are `decide` of the specification Props themselves.',
+    'level_note': 'Trusted: Lean kernel + axioms propext/Classical.choice/Quot.sound; the 28 laws of LawfulFloatOps for binary64 (all '
+                  'proved for the exact carrier Rat; re-tested on the doubles of every run - a test).  GridExact / GridAll (hypotheses '
+                  'of idempotence) hold over Rat; for binary64 they can fail where scale is below the float spacing (grid indices '
+                  'beyond 2^53) - the generator probes that region.  lazy_number_validation stays False.  Lone-surrogate strings and '
+                  'previous values of a wrong kind are judged for totality only.  Previous values are values __call__ accepts '
+                  '(validate-accepted ones and ones pushed outside the limits).',
     'trusted': [
         'binary64 satisfies the 27 laws of LawfulFloatOps (FrappyModel/Base/Num.lean): order laws, monotonicity of x/scale, k*scale, '
         'round(), x + 0.0, tolerance band; proved for the Rat carrier, re-tested on the doubles of each run',
@@ -37,7 +37,7 @@ META = {
         'frappy.properties.HasProperties.checkProperties (DType.WF is what it enforces)',
     ],
     'assumptions': ['generalConfig.lazy_number_validation is False (default)',
-                    'previous is None or a value of the declared value set',
+                    'previous is None or a value __call__ returned (it may lie outside the limits)',
                     'dict keys of offered values are strings (struct member names)'],
 }
 
@@ -253,7 +253,7 @@ def law_test(ctx, res, cases):
     res.count('float-law re-test (a test): tuples', len(tuples))
     res.count('float-law re-test (a test): distinct doubles', len(fl))
     res.count('float-law re-test (a test): laws violated', len(fails))
-    res.notes.append(f'float-law re-test (a test, not a proof): the {27} laws of LawfulFloatOps evaluated with the Float instance on '
+    res.notes.append(f'float-law re-test (a test, not a proof): the laws of LawfulFloatOps evaluated with the Float instance on '
                      f'{len(tuples)} tuples over the {len(fl)} distinct doubles and {len(it)} integers of this run: '
                      f'{len(fails)} laws violated')
     for name, t in fails.items():
